@@ -314,6 +314,12 @@ class ProgBase(HookMixin, ContextMixin, Process):
         super().load_instance_state(saved_state, load_context)
         world.cur().extra.setdefault('instances', []).append(self)
 
+    def init(self):
+        # the documented hook for what is common to created and recreated processes: here a helper that is built from
+        # state the subclass persists (the context), so it has to run when all of that has been restored
+        super().init()
+        self._pv_ctx_keys_at_init = sorted(vars(self.ctx))
+
     def save_instance_state(self, out_state, save_context):
         # an application that keeps only its newest checkpoint: while it is being saved it purges what the store holds of it
         store = world.cur().extra.get('purge_on_save')
